@@ -13,7 +13,7 @@ LEVEL = {
          "TLA+ relational specification of the CLI + trace validation of runs of the built binary", "5 C20"),
  "C19": ("CApi.tla states the C interface as relations: a constructor returns NULL iff the file is unreadable, the alist does not parse, the name is not one of Factory!Names, the pattern is not empty-or-0/1-list, or (encoder) the systematic "
          "encoder rejects the matrix; decode returns iterations / -1 and the leading bits of the Rust decoder's word on the depunctured LLRs; encode writes the punctured codeword. The real extern \"C\" symbols are bound by trace validation: they are "
-         "called from child processes with write-ahead records (an abort is attributed to its input), through files and strings, f64 and f32 entry points, output lengths 0..n, two interleaved handles, and every call is paired with the public Rust API on fresh objects; TLC evaluates the relations (name membership from the string itself).",
+         "called from child processes with write-ahead records (an abort is attributed to its input), through files and strings, f64 and f32 entry points, output lengths 0..n, two interleaved handles, and every call is paired with the public Rust API on fresh objects; TLC evaluates the relations (name membership from the string itself; a text cut inside its column section must give NULL whatever the Rust parser says).",
          "TLC + Json/IOUtils; Rust-API references (their correctness is C01-C05, C10, C15, C02); encoder constructor only given matrices inside C02's domain.",
          "TLA+ relational specification + trace validation of FFI calls made in child processes", "5 C19"),
  "C06": ("QcCode.tla holds the standard's constants (n, k, q = (n-k)/360, degree profiles for all 21 identifiers, typed from EN 302 307-1) and the construction law; TLC proves on scaled-down parameters that consecutive columns of a group are "
@@ -60,7 +60,7 @@ LEVEL = {
          "TLC + Json/IOUtils; inputs are position tags.",
          "TLA+ model checking of index maps + trace validation on tagged inputs", "5 C15"),
  "C18": ("Factory.tla derives the 36 documented implementations from the naming rule (24 arithmetic type names; HL prefix <=> layered; which arithmetics have a layered form) and TLC checks the table is a bijection of "
-         "size 36. The real factory is bound by trace validation: every name's parse / Display / clap string, clap's value list as a set, ~360 near-miss strings that must be rejected, and a Table event in which TLC requires "
+         "size 36. The real factory is bound by trace validation: every name's parse / Display / clap string, the C constructor and the real command-line parser (`ber --decoder <s>` must select exactly the named implementation), clap's value list as a set, ~360 near-miss strings that FromStr, the C constructor and the command line must all reject, and a Table event in which TLC requires "
          "the fingerprint of each factory-built decoder on a seeded separating family to equal that of the generic decoder constructed directly from the named arithmetic type and schedule, and the 36 fingerprints to be pairwise distinct.",
          "TLC + Json/IOUtils; harness splits names at the HL prefix; FNV digest equality as behaviour equality on the family.",
          "TLA+ specification of the naming table + trace validation of parse/print/clap and behavioural fingerprints", "5 C18"),
@@ -117,7 +117,8 @@ LEVEL = {
  "C17": ("Sparse.tla (two mirrored adjacency lists, the ten mutators as coded) is model-checked exhaustively against SparseSet.tla "
          "(set of positions): Mirror, NoDup, refinement, weights, no-op equality on all histories of a 2x3 matrix. The real SparseMatrix is bound "
          "to SparseSet by trace validation in both directions: TLC-simulated behaviours replayed into the code and random histories recorded from it, "
-         "with every query (contains, weights, three iterators, equality) compared by TLC after every step.",
+         "with every query (contains, weights, three iterators, equality) compared by TLC after every step. (Thorough tier: an Apalache inductive-invariant proof of "
+         "TypeOK /\\ NoDup /\\ Mirror /\\ Refines for symbolic dimensions and unbounded histories, with a refuted flawed twin, is recorded as extra evidence.)",
          "TLC + Json/IOUtils modules; harness projection dumps query results verbatim; indices in range.",
          "TLA+ refinement model checking + trace validation (both directions)", "5 C17"),
 }
